@@ -667,6 +667,11 @@ impl Session {
     }
 
     fn spawn_tracker(&mut self) {
+        // Only one announce at a time, job ends (and is joined) after successful response
+        if self.tracker.job.is_some() {
+            return;
+        }
+
         #[cfg(feature = "verif")]
         if let Some(job) = crate::verif::scripted_tracker(self.tracker.tx_ch.clone()) {
             self.tracker.job = Some(job);
